@@ -1,3 +1,5 @@
+import math
+
 """E4: serial lines source -> (handlers, processors, buffers)* -> sink against the blocking-after-service
 max-plus recurrence written from the statement of C04 (independent of the code under test).
 
@@ -35,6 +37,7 @@ def reference(case):
             else:
                 kind = st[nxt - 1]
                 K = num(kind[2]) if kind[0] == 'B' else 1
+                K = K if K == INF else math.floor(K)      # a fractional capacity counts down
                 free = D[nxt][k - K] if (K != INF and k - K >= 0) else -INF
             d = max(ready, free)
             if free > ready:
